@@ -103,6 +103,8 @@ def real_blocks(src):
             cls = 'beforecase'
         elif 'illegal in type' in m:
             cls = 'intype'
+        elif 'field declaration outside type' in m:
+            cls = 'fieldoutside'
         elif 'without' in m and (m.startswith('else') or m.startswith('case')):
             cls = 'midwithout'
         elif 'without' in m:
@@ -117,7 +119,7 @@ def real_blocks(src):
 # ---- fault catalogue: (name, lines to insert, index of the offending line among them, expected category)
 # categories: 'syntax' = SyntaxError; otherwise the ErrorCode name of CompileError
 DECLS = ['TYPE zrec', '  za AS INTEGER', '  zb AS STRING', 'END TYPE', 'DIM SHARED zr AS zrec', 'DIM SHARED zarr%(3)', 'DIM SHARED zq%, zs$',
-         'zq% = 1: zs$ = "s"']
+         'zq% = 1: zs$ = "s"', 'DIM SHARED zdyn%(zq%, 1 TO zq% + 1)']
 FAULTS = [
     ('assign string to integer', ['zq% = "s"'], 0, 'TYPE_MISMATCH'),
     ('assign number to string', ['zs$ = 5'], 0, 'TYPE_MISMATCH'),
@@ -149,6 +151,8 @@ FAULTS = [
     ('wrong argument count of a builtin', ['PRINT LEN("a", 1)'], 0, 'ARGUMENT_COUNT_MISMATCH'),
     ('wrong array rank', ['zarr%(1, 2) = 1'], 0, 'WRONG_NUMBER_OF_DIMENSIONS'),
     ('wrong array rank in expression', ['PRINT zarr%(1, 2)'], 0, 'WRONG_NUMBER_OF_DIMENSIONS'),
+    ('wrong rank of an array with run-time bounds', ['zdyn%(1) = 1'], 0, 'WRONG_NUMBER_OF_DIMENSIONS'),
+    ('wrong rank of an array with run-time bounds in expression', ['PRINT zdyn%(1, 1, 1)'], 0, 'WRONG_NUMBER_OF_DIMENSIONS'),
     ('undefined type', ['DIM zv AS zznotype'], 0, 'TYPE_NOT_DEFINED'),
     ('undefined field', ['zr.zznofield = 1'], 0, 'ELEMENT_NOT_DEFINED'),
     ('undefined field in expression', ['PRINT zr.zznofield'], 0, 'ELEMENT_NOT_DEFINED'),
@@ -172,11 +176,17 @@ FAULTS = [
     ('illegal numeric literal (too large)', ['PRINT 99999999999'], 0, 'syntax'),
     ('illegal numeric literal (exponent)', ['PRINT 1E400'], 0, 'syntax'),
     ('illegal numeric literal (integer suffix)', ['PRINT 70000%'], 0, 'syntax'),
+    ('block terminator in a single-line IF', ['IF zq% THEN WEND'], 0, 'syntax'),
+    ('block opener in a single-line IF', ['IF zq% THEN PRINT 1 ELSE DO'], 0, 'syntax'),
+    ('CASE in a single-line IF', ['IF zq% THEN CASE 1'], 0, 'syntax'),
+    ('field declaration outside TYPE', ['zzf AS INTEGER'], 0, 'syntax'),
+    ('mismatched types in a constant expression', ['CONST zc5 = "s" + 1'], 0, 'TYPE_MISMATCH'),
+    ('INPUT into a function', ['INPUT zfun%(1)'], 0, 'DUPLICATE_DEFINITION'),
     ('non-constant CONST', ['CONST zc3 = zq%'], 0, 'INVALID_CONSTANT'),
     ('non-constant CONST (function)', ['CONST zc4 = RND'], 0, 'INVALID_CONSTANT'),
 ]
-NEUTRAL = ['zq% = zq% + 1', 'PRINT zs$;', 'zarr%(1) = zq%', 'zr.za = 2', 'CALL zsub(zq%)', 'IF zq% THEN zq% = 0']
-SUBDEF = ['SUB zsub (p%)', 'END SUB']
+NEUTRAL = ['zdyn%(1, 1) = zq%', 'zq% = zq% + 1', 'PRINT zs$;', 'zarr%(1) = zq%', 'zr.za = 2', 'CALL zsub(zq%)', 'IF zq% THEN zq% = 0']
+SUBDEF = ['SUB zsub (p%)', 'END SUB', 'FUNCTION zfun% (p%)', '  zfun% = p%', 'END FUNCTION']
 UNCLOSED = {'unclosed FOR', 'unclosed WHILE', 'unclosed block IF', 'unclosed SELECT'}
 MISPLACED_TERMINATOR = {'misplaced NEXT', 'misplaced WEND', 'misplaced LOOP', 'misplaced END IF', 'misplaced END SELECT', 'misplaced ELSE',
                         'misplaced ELSEIF', 'misplaced CASE'}
@@ -336,7 +346,7 @@ def run(chk):
         st = real.big_frame(lambda: real.try_compile(src, 0, False))
         cls = {'without': 'block terminator without its opener', 'expected': 'block closed by the wrong terminator',
                'midwithout': 'ELSE / ELSEIF / CASE outside its block', 'notclosed': 'unclosed block', 'elseafter': 'ELSE after ELSE',
-               'beforecase': 'statement between SELECT CASE and CASE', 'intype': 'statement illegal in TYPE'}.get(gp[1], gp[1])
+               'beforecase': 'statement between SELECT CASE and CASE', 'intype': 'statement illegal in TYPE', 'fieldoutside': 'field declaration outside TYPE'}.get(gp[1], gp[1])
         if st[0] == 'ok':
             chk.finding(f'C05 accepted: {cls} (statement sequence)', f'line {gp[3]} of {q}', {'kind': 'c05', 'src': src, 'O': 0, 'g': False,
                         'want': 'syntax', 'want_line': int(gp[3]), 'fault': cls, 'site': 'sequence'})
